@@ -484,7 +484,7 @@ fn value_json(
         AV::Data16(x) => json!({"k":"const","cls":"data","w":16,"v":bv128(x, 16)}),
         AV::Sdata(x) => json!({"k":"const","cls":"s","w":0,"v":b8(x as u64)}),
         AV::Udata(x) => json!({"k":"const","cls":"u","w":0,"v":b8(x)}),
-        AV::Exprloc(e) => json!({"k":"expr","ops":ops_meaning(e.0.slice(), unit.encoding(), endian, &cx)}),
+        AV::Exprloc(e) => json!({"k":"expr","ops":ops_meaning(e.0.slice(), unit.encoding(), endian, &cx),"raw":bytes_json(e.0.slice())}),
         AV::Flag(b) => json!({"k":"flag","b":b}),
         AV::UnitRef(o) => {
             let mut j = cx.unit_ref(o.0 as u64);
@@ -1263,6 +1263,39 @@ fn gen_raw_expr(r: &mut Rng, endian: RunTimeEndian) -> write::Expression {
     write::Expression::raw(x)
 }
 
+/// An expression that does NOT start with DW_OP_constu, contains the byte 0x10 (as the
+/// DW_OP_constu opcode and/or as an operand) in a later position, and refers to entries:
+/// references must follow their target when the unit's layout changes.
+fn gen_ref_expr(r: &mut Rng, bases: &[write::UnitEntryId], locals: &[write::UnitEntryId], globals: &[(write::UnitId, write::UnitEntryId)]) -> write::Expression {
+    let mut x = write::Expression::new();
+    match r.below(3) {
+        0 => x.op_breg(Register(1), 0x10),
+        1 => x.op_fbreg(0x10),
+        _ => x.op(c::DW_OP_dup),
+    }
+    if r.chance(2, 3) {
+        x.op_constu(*r.pick(&[0x10u64, 40, 1000]));
+    }
+    for _ in 0..r.range(1, 3) {
+        match r.below(6) {
+            0 if !locals.is_empty() => x.op_call(*r.pick(locals)),
+            1 if !globals.is_empty() => {
+                let g = *r.pick(globals);
+                x.op_call_ref(write::DebugInfoRef::Entry(g.0, g.1))
+            }
+            2 if !globals.is_empty() => {
+                let g = *r.pick(globals);
+                x.op_implicit_pointer(write::DebugInfoRef::Entry(g.0, g.1), 0x10)
+            }
+            3 if !bases.is_empty() => x.op_regval_type(Register(0x10), *r.pick(bases)),
+            4 if !bases.is_empty() => x.op_const_type(*r.pick(bases), vec![0x10u8, 0, 0, 0].into_boxed_slice()),
+            5 if !locals.is_empty() => x.op_gnu_parameter_ref(*r.pick(locals)),
+            _ => x.op_plus_uconst(0x10),
+        }
+    }
+    x
+}
+
 fn gen_dwarf(seed: u64, endian: RunTimeEndian) -> Result<Secs, String> {
     let mut r = Rng::new(seed);
     let mut dwarf = write::Dwarf::new();
@@ -1376,14 +1409,19 @@ fn gen_dwarf(seed: u64, endian: RunTimeEndian) -> Result<Secs, String> {
         let unit = dwarf.units.get_mut(*uid);
         let root = unit.root();
         let mut ids = vec![root];
+        // possible parents: not inside the subtree of a root-level base type (those subtrees are
+        // written first, an expression there could only refer forward to the other base types)
+        let mut parents = vec![root];
         let mut bases = Vec::new();
         let n = r.range(3, 30);
         for k in 0..n {
-            let parent = if r.chance(1, 3) { root } else { *r.pick(&ids) };
+            let parent = if r.chance(1, 3) { root } else { *r.pick(&parents) };
             let tag = if k % 7 == 3 { c::DW_TAG_base_type } else { *r.pick(&tags) };
             let id = unit.add(parent, tag);
             if tag == c::DW_TAG_base_type && parent == root {
                 bases.push(id);
+            } else {
+                parents.push(id);
             }
             ids.push(id);
         }
@@ -1422,7 +1460,14 @@ fn gen_dwarf(seed: u64, endian: RunTimeEndian) -> Result<Secs, String> {
         let names = [c::DW_AT_location, c::DW_AT_type, c::DW_AT_byte_size, c::DW_AT_decl_file, c::DW_AT_decl_line, c::DW_AT_external,
                      c::DW_AT_const_value, c::DW_AT_ranges, c::DW_AT_frame_base, c::DW_AT_linkage_name, c::DW_AT_abstract_origin,
                      c::DW_AT_data_member_location, c::DW_AT_encoding, c::DW_AT_signature, c::DW_AT_call_file, c::DW_AT_upper_bound,
-                     c::DW_AT_description, c::DW_AT_high_pc, c::DW_AT_entry_pc, c::DW_AT_specification, c::DW_AT_artificial, c::DW_AT_accessibility];
+                     c::DW_AT_description, c::DW_AT_high_pc, c::DW_AT_entry_pc, c::DW_AT_specification, c::DW_AT_artificial, c::DW_AT_accessibility,
+                     // every other attribute of class exprloc
+                     c::DW_AT_vtable_elem_location, c::DW_AT_vtable_elem_location, c::DW_AT_string_length, c::DW_AT_static_link,
+                     c::DW_AT_use_location, c::DW_AT_allocated, c::DW_AT_associated, c::DW_AT_data_location, c::DW_AT_call_value,
+                     c::DW_AT_call_target, c::DW_AT_lower_bound, c::DW_AT_count, c::DW_AT_byte_stride, c::DW_AT_segment, c::DW_AT_rank];
+        // the first few entries of most units carry a non-canonical raw expression: conversion
+        // re-encodes it shorter, so the offsets of all later entries SHIFT
+        let shifters: Vec<write::UnitEntryId> = if r.chance(4, 5) { locals.iter().filter(|e| !bases.contains(e)).take(r.range(1, 3) as usize).cloned().collect() } else { Vec::new() };
         for &eid in locals.iter() {
             let is_base = bases.contains(&eid);
             let nattr = if is_base { 0 } else { r.below(6) };
@@ -1431,12 +1476,25 @@ fn gen_dwarf(seed: u64, endian: RunTimeEndian) -> Result<Secs, String> {
                 let v = if r.chance(1, 2) { write::AttributeValue::StringRef(dwarf.strings.add(nm.into_bytes())) } else { write::AttributeValue::String(nm.into_bytes()) };
                 dwarf.units.get_mut(*uid).get_mut(eid).set(c::DW_AT_name, v);
             }
+            if shifters.contains(&eid) {
+                let x = gen_raw_expr(&mut r, endian);
+                dwarf.units.get_mut(*uid).get_mut(eid).set(c::DW_AT_return_addr, write::AttributeValue::Exprloc(x));
+            }
             for _ in 0..nattr {
                 let name = *r.pick(&names);
                 if files.is_empty() && (name == c::DW_AT_decl_file || name == c::DW_AT_call_file) {
                     continue;
                 }
                 let v = match name {
+                    c::DW_AT_vtable_elem_location | c::DW_AT_string_length | c::DW_AT_return_addr | c::DW_AT_static_link
+                    | c::DW_AT_use_location | c::DW_AT_allocated | c::DW_AT_associated | c::DW_AT_data_location | c::DW_AT_call_value
+                    | c::DW_AT_call_target | c::DW_AT_lower_bound | c::DW_AT_count | c::DW_AT_byte_stride | c::DW_AT_segment | c::DW_AT_rank => {
+                        if r.chance(1, 2) {
+                            write::AttributeValue::Exprloc(gen_ref_expr(&mut r, &bases, &locals, &globals))
+                        } else {
+                            write::AttributeValue::Exprloc(gen_expr(&mut r, enc, &bases, &locals, &globals, 0))
+                        }
+                    }
                     c::DW_AT_location | c::DW_AT_frame_base | c::DW_AT_data_member_location => {
                         if r.chance(1, 3) && name == c::DW_AT_location {
                             let mut list = Vec::new();
